@@ -607,7 +607,7 @@ def rule_containment(ctx: Ctx, repo: Repo) -> None:
     # turn; the profile function must still return normally
     n_f = 0
     for event in ("call", "return"):
-        def run_with_fault(k: Optional[int]) -> Tuple[List[str], str]:
+        def run_with_fault(k: Optional[int], exc: str = "RuntimeError") -> Tuple[List[str], str]:
             sc = TracerScenario(repo, "__call__", {"should_trace": _K(None)})
             seen_calls: List[str] = []
 
@@ -626,7 +626,7 @@ def rule_containment(ctx: Ctx, repo: Repo) -> None:
                 if (is_self_m or (callee is not None and callee.fq.startswith("monkeytype."))) and not inlined:
                     _seen.append(norm(call)[:60])
                     if _k is not None and len(_seen) - 1 == _k:
-                        _raise(st, "RuntimeError")
+                        _raise(st, exc)
                         return _U("injected fault")
                     if is_self_m and call.func.attr in ("handle_call", "handle_return"):
                         return _K(None)
@@ -648,6 +648,14 @@ def rule_containment(ctx: Ctx, repo: Repo) -> None:
             ctx.check(ended_k == "returns", "R-C03.2", fi.fq,
                       "every call the profile function makes (other than the code filter) is under a catch-all handler",
                       construct=f"a failure of `{calls0[k]}` (event '{event}') leaves the profile function: it {ended_k}")
+            # ... but what is not an error of the tracer is not the tracer's to keep: a KeyboardInterrupt (Ctrl-C, delivered in
+            # whatever frame runs - often a tracer frame) or SystemExit raised there must reach the program as it does untraced
+            for passing in ("KeyboardInterrupt", "SystemExit"):
+                _, ended_p = run_with_fault(k, passing)
+                n_f += 1
+                ctx.check(ended_p == f"raises {passing}", "R-C03.2", fi.fq,
+                          "an interrupt or exit request that arrives while the tracer runs propagates to the program (the same exceptions with and without tracing)",
+                          construct=f"{passing} raised inside `{calls0[k]}` (event '{event}'): the profile function {ended_p} - the program carries on as if nothing had happened")
     ctx.floor("R-C03.2", "calls of the profile function that were made to fail", n_f, 2)
     # ... and the code filter: the configured filter runs for every event of every frame of the program; the shipped one touches
     # the file system (pathlib's resolve() needs the current directory, follows links), a custom one is user code. Its failure
